@@ -6,9 +6,9 @@ WT=$1; ID=$2
 cd "$WT" || exit 2
 [ -s patch.diff ] && [ -f equiv_demo.py ] || { echo "missing patch.diff / equiv_demo.py"; exit 2; }
 git checkout -q -- apischema
-/venv/bin/python equiv_demo.py > /tmp/ref_before.$$ 2>&1
+PYTHONHASHSEED=0 /venv/bin/python equiv_demo.py > /tmp/ref_before.$$ 2>&1
 git apply patch.diff || { echo "patch does not apply"; exit 2; }
-/venv/bin/python equiv_demo.py > /tmp/ref_after.$$ 2>&1
+PYTHONHASHSEED=0 /venv/bin/python equiv_demo.py > /tmp/ref_after.$$ 2>&1
 SUITE=$(/venv/bin/python -m pytest -q -p no:cacheprovider --timeout=900 2>&1 | tail -1)
 SAME=no; cmp -s /tmp/ref_before.$$ /tmp/ref_after.$$ && SAME=yes
 LINES=$(grep -c '^[-+][^-+]' patch.diff)
